@@ -42,6 +42,10 @@ EXPLANATION = (
     "sktime's clone/reset/set_params themselves (external model), numerical equality of combine_first+fit with fit on a "
     "concatenated frame (pandas)."
 )
+# obligations added during the build phase (seeding rounds, twins, mutation analysis)
+ADDED_IN_BUILD = ' Also: (b) the minimum size of a scorer is never read before the scorer was fitted on the current data; the cost adapters are run with a history (fit on other data, evaluate, fit on X) and their value must be the defining cost differences on the CURRENT data (C06.a re-run); (a) no set_params / reset / attribute store on an object the user handed in as a hyper-parameter (adapters with and without a fixed parameter, all detectors; arbitrary user objects); (e) fit_predict / fit_transform are fit(X, y) followed by predict / transform of the same X; (g) FIT-ALWAYS-FITS - in both base-class fit wrappers every returning path stores the data, runs _fit on the (normalised) argument and sets _is_fitted (must-pass-through over the statement tree: no shortcut on object identity).'
+EXPLANATION = EXPLANATION + ADDED_IN_BUILD
+
 ASSUMPTIONS = [
     "Python's ast module; attribute effects are collected syntactically on `self` (no setattr/__dict__ tricks - their presence is reported)",
     "sktime BaseEstimator model: clone() == type(self)(**get_params()), set_params re-runs __init__, get_params reads attributes named like __init__ parameters",
